@@ -206,6 +206,14 @@ fn clvm_tree_to_lazy_node(obj: Bound<'_, PyAny>) -> PyResult<LazyNode> {
         },
     }
 
+    // The identity map and the `BuildPair` work items refer to Python objects by
+    // address only. Storage classes such as `LazyNode` build fresh child objects
+    // on every `.pair` access; if those temporaries were dropped as soon as they
+    // had been visited, their addresses could be handed out again to later
+    // temporaries, which would then be mistaken for the earlier objects. Keep
+    // every visited object alive until the conversion is complete.
+    let mut keep_alive: Vec<Bound<'_, PyAny>> = Vec::new();
+
     let root_ptr = obj.as_ptr() as usize;
     let mut stack: Vec<WorkItem<'_>> = vec![WorkItem::Visit(obj)];
 
@@ -217,6 +225,7 @@ fn clvm_tree_to_lazy_node(obj: Bound<'_, PyAny>) -> PyResult<LazyNode> {
                 if identity_map.contains_key(&id) {
                     continue;
                 }
+                keep_alive.push(pyobj.clone());
 
                 let atom_val: Option<Vec<u8>> = pyobj.getattr("atom")?.extract()?;
 
